@@ -172,6 +172,34 @@ def directed(rng, tier):
     items.append({"id": "ifloop", "module": m,
                   "script": [INST] + [{"op": "call", "inst": 1, "export": "t", "args": [arg("i32", a), arg("i32", b)]}
                                       for a in (0, 1, 2, 5, 0xFF, 0x80000000) for b in (0, 7)]})
+    # (w) a branch carrying a value of type T to a block of type T, with an extra operand below, while blocks / loops / ifs of OTHER
+    #     result types are opened (nested, already closed, or in dead code) between the target's opening and the branch
+    cst = {"i32": ["i32.const", b32(42)], "i64": ["i64.const", b64(43)], "f32": ["f32.const", b32(0x42280000)], "f64": ["f64.const", b64(0x4045800000000000)]}
+    toi32 = {"i32": [], "i64": [["i32.wrap_i64"]], "f32": [["i32.trunc_sat_f32_s"]], "f64": [["i32.trunc_sat_f64_s"]]}
+    jw = 0
+    for T in ("i32", "i64", "f32", "f64"):
+        for U in ("i32", "i64", "f32", "f64"):
+            if U == T:
+                continue
+            for where in ("closed", "nested", "dead"):
+                for br in ("br", "br_if", "br_table"):
+                    # inside the target block: an extra operand (i32 7), then the other-typed construct, then the carried value
+                    inner_closed = [["block", U], cst[U], ["end"], ["drop"]]
+                    if where == "nested":
+                        # the branch sits inside a block of type U and leaves it as well (label 1)
+                        brn = {"br": [["br", 1]], "br_if": [["local.get", 0], ["br_if", 1], ["drop"], cst[U]], "br_table": [["local.get", 0], ["br_table", [1], 1]]}[br]
+                        body_in = [["i32.const", b32(7)], ["block", U], cst[T]] + brn + [["end"], ["drop"], ["drop"], cst[T]]
+                    else:
+                        tail_ = {"br": [["br", 0]], "br_if": [["local.get", 0], ["br_if", 0], ["drop"], ["drop"], cst[T]], "br_table": [["local.get", 0], ["br_table", [0], 0]]}[br]
+                        if where == "closed":
+                            body_in = [["i32.const", b32(7)]] + inner_closed + [cst[T]] + tail_
+                        else:   # dead: the other-typed construct follows an unconditional branch out of a void block
+                            body_in = [["i32.const", b32(7)], ["block", ""], ["br", 0]] + inner_closed + [["end"], cst[T]] + tail_
+                    # target block of type T entered with one extra operand (an i32) below its result
+                    body = [["i32.const", b32(1000)], ["block", T]] + body_in + [["end"]] + toi32[T] + [["i32.add"], ["end"]]
+                    m = {"types": [{"p": ["i32"], "r": ["i32"]}], "funcs": [{"type": 0, "locals": [], "body": body}], "exports": [{"name": "t", "kind": "func", "idx": 0}]}
+                    items.append({"id": "mix%d" % jw, "module": m, "script": [INST] + [{"op": "call", "inst": 1, "export": "t", "args": [arg("i32", n)]} for n in (0, 1)]})
+                    jw += 1
     # (y) every activation has its own zeroed locals: self calls in tail position (last instruction, before `return`, inside an
     #     `if`), the callee reads a local the caller has written
     for shape in ("last", "return", "ifarm"):
